@@ -185,6 +185,11 @@ pub fn history(cfg: &Cfg, rep: &mut Report, h: u64, steps: usize, e2e: bool) {
         rep.op(format!("warm-up: topics 1,2,3; I0 trusted for 1,2,3; I1 for 1,2; allowed keys {allowed:?}"));
     }
     for step in 0..steps {
+        // (rarely) the ledger jumps far beyond every lifetime extension: nothing registered may lapse
+        if rng.chance(1, 40) {
+            w.set_ledger(w.ledger() + 600_000);
+            rep.count("ledger_jumps");
+        }
         let k = rng.below(100);
         let mut ii = rng.idx(ni);
         let idi = rng.idx(nid);
